@@ -8,6 +8,7 @@ package props
 import (
 	"fmt"
 	kcp "github.com/xtaci/kcp-go/v5"
+	"sort"
 	"testing"
 
 	"pgregory.net/rapid"
@@ -86,11 +87,31 @@ func TestC03Core(t *testing.T) {
 			drops = append(drops, d)
 			lastDrop = max(lastDrop, d.To)
 		}
+		// the application may enlarge the receive window at any time, also in the
+		// middle of a stall, when segments are parked behind a full queue
+		type grow struct {
+			At  int64
+			Mul int
+		}
+		var grows []grow
+		for i, n := 0, rapid.SampledFrom([]int{0, 1, 1, 2}).Draw(rt, "nGrows"); i < n; i++ {
+			grows = append(grows, grow{int64(rapid.IntRange(0, int(min(longest+2000, 650_000))).Draw(rt, "growAt")), rapid.SampledFrom([]int{2, 3, 8}).Draw(rt, "growMul")})
+		}
+		sort.SliceStable(grows, func(i, j int) bool { return grows[i].At < grows[j].At })
 		var st sim.CoreStats
 		var obs c04Obs
 		zeroAdv, waskSent, ctlDropped := false, 0, 0
+		grown := 0
 		rapid.SyncTest(rt, func(rt *rapid.T) {
 			s := sim.NewCoreSim(cfg, fs, app)
+			for _, g := range grows {
+				g := g
+				s.Ops = append(s.Ops, sim.TimedOp{At: g.At, Name: fmt.Sprintf("receive window x%d at the receiver", g.Mul), Fn: func(s *sim.CoreSim) error {
+					s.K[1].WndSize(0, int(s.K[1].VerifState(false).RcvWnd)*g.Mul)
+					grown++
+					return nil
+				}})
+			}
 			attachC04(s, &obs)
 			inner := s.OnEmit
 			s.OnEmit = func(e *sim.Emitted) error {
@@ -143,7 +164,7 @@ func TestC03Core(t *testing.T) {
 				err = nil
 			}
 			if err != nil {
-				rt.Fatalf("C03 (raw core): %v\npauses %+v, control datagrams dropped during %+v\ncase: %+v", err, app[0].Pauses, drops, describeCore(cfg, fs, app))
+				rt.Fatalf("C03 (raw core): %v\npauses %+v, control datagrams dropped during %+v, receive window enlarged at %+v\ncase: %+v", err, app[0].Pauses, drops, grows, describeCore(cfg, fs, app))
 			}
 		})
 		cl := coreClasses(&st)
@@ -159,7 +180,10 @@ func TestC03Core(t *testing.T) {
 		if obs.fullRcvQ {
 			cl = append(cl, "full_delivery_queue")
 		}
-		rec.Case(hx.Hash64(cfg, fs.Describe(), app, drops), zeroAdv && waskSent > 0 && ctlDropped > 0, cl...)
+		if grown > 0 {
+			cl = append(cl, "receive_window_enlarged_in_mid_connection")
+		}
+		rec.Case(hx.Hash64(cfg, fs.Describe(), app, drops, grows), zeroAdv && waskSent > 0 && ctlDropped > 0, cl...)
 		if rec.WantSample() {
 			d := describeCore(cfg, fs, app)
 			d["control_drop_windows_ms"] = drops
@@ -196,6 +220,12 @@ func TestC03Session(t *testing.T) {
 			drops = append(drops, d)
 			lastDrop = max(lastDrop, d.To)
 		}
+		var growAt []int64
+		for i, n := 0, rapid.SampledFrom([]int{0, 1, 1, 2}).Draw(rt, "nGrows"); i < n; i++ {
+			growAt = append(growAt, int64(rapid.IntRange(0, int(min(longest+2000, 650_000))).Draw(rt, "growAt")))
+		}
+		sort.Slice(growAt, func(i, j int) bool { return growAt[i] < growAt[j] })
+		grown := 0
 		zeroAdv, waskSent, ctlDropped, maxBacklog := false, 0, 0, 0
 		rapid.SyncTest(rt, func(rt *rapid.T) {
 			s := sim.NewSessSim(cfg.ClockOff, cfg.EntropySeed)
@@ -264,7 +294,20 @@ func TestC03Session(t *testing.T) {
 			}
 			faultsEnd := max(lastDrop, pauseSum, fs.EndTime()) + pauseSum
 			segs := total/int64(p.MSS[0]) + 10
-			err = runPairUntilComplete(p, s, faultsEnd, segs, cfg.Opts[0].Interval+cfg.Opts[1].Interval)
+			// the receiving application enlarges its window at drawn moments, also in mid-stall
+			rw := cfg.Opts[1].RcvWnd
+			for _, at := range growAt {
+				if err = p.Run(at, false); err != nil || p.Complete() {
+					break
+				}
+				rw *= 2
+				p.Sess[1].SetWindowSize(cfg.Opts[1].SndWnd, rw)
+				grown++
+				s.Quiesce()
+			}
+			if err == nil {
+				err = runPairUntilComplete(p, s, faultsEnd, segs, cfg.Opts[0].Interval+cfg.Opts[1].Interval)
+			}
 			if err == errScriptUnfinished {
 				rec.Class("script_unfinished_inconclusive", 1)
 				err = nil
@@ -286,7 +329,10 @@ func TestC03Session(t *testing.T) {
 		if cfg.FEC[0][0] > 0 {
 			cl = append(cl, "fec_on")
 		}
-		rec.Case(hx.Hash64(describePair(cfg, fs, app), drops), zeroAdv && waskSent > 0 && ctlDropped > 0, cl...)
+		if grown > 0 {
+			cl = append(cl, "receive_window_enlarged_in_mid_connection")
+		}
+		rec.Case(hx.Hash64(describePair(cfg, fs, app), drops, growAt), zeroAdv && waskSent > 0 && ctlDropped > 0, cl...)
 		if rec.WantSample() {
 			d := describePair(cfg, fs, app)
 			d["control_drop_windows_ms"] = drops
